@@ -220,6 +220,11 @@ def rules(P, R, prefix="C02"):
 
             # ---- R4: every drained element is sent
             for (n, qn, dr), i in ordinal_keys(drains, lambda x: 0):
+                par = cf.parents().get(id(n))
+                blocking = MPSC_SEND in callee_paths(n) and par is not None and par["k"] == "await"
+                R.judge(blocking, prefix + ".R4", key(cf, "hand-over to the application is a blocking send (never dropped when the channel is full)" + tag, i), n["sp"],
+                        str(callee_paths(n)), "the committed block is handed over with `%s` (not an awaited Sender::send): when the bounded commit channel is "
+                        "full the block is dropped although the watermark already moved past it" % n["name"])
                 loop = None
                 for a in cf.ancestors(n):
                     if a["k"] in ("while", "for", "loop"):
